@@ -169,7 +169,13 @@ def run(ctx: Context) -> None:
         ok_file = False
         for c in shapes:
             a = flow.resolve(c.args[0]) if c.args else None
-            if isinstance(a, ast.Call) and callee(ctx, ga, a) == 'json.load':
+            reads_file = isinstance(a, ast.Call) and callee(ctx, ga, a) == 'json.load'
+            if isinstance(a, ast.Call) and callee(ctx, ga, a) == 'json.loads' and len(a.args) == 1:
+                # json.loads(<path>.read_text()): the same file, read in one go
+                src_ = flow.resolve(a.args[0])
+                reads_file = isinstance(src_, ast.Call) and isinstance(src_.func, ast.Attribute) and src_.func.attr == 'read_text' \
+                    and flow.reaches(src_.func.value, lambda n: isinstance(n, ast.Call) and (dotted(n.func) or '').endswith('Path'))
+            if reads_file:
                 from .common import facts as _facts20b
                 suffix = any(inb and 'suffix in' in t and "'.geojson'" in t and "'.json'" in t for t, inb in _facts20b(ctx, ga, c))
                 ok_file = suffix
@@ -368,10 +374,17 @@ def run(ctx: Context) -> None:
             from .common import facts as _facts20c
             defs_ = flow.defs_of(tv) if isinstance(tv, ast.Name) else []
             wtext = norm_text(written)
+            def arms(v, known):
+                """(value, facts) for the arms of a conditional expression (`x = a if c else None` is `if c: x = a else: x = None`)"""
+                if isinstance(v, ast.IfExp):
+                    from .common import _positive_compare
+                    t_, pol_ = (_positive_compare(v.test) if isinstance(v.test, ast.Compare) else (v.test, True))
+                    return arms(v.body, known | {(norm_text(t_), pol_)}) + arms(v.orelse, known | {(norm_text(t_), not pol_)})
+                return [(v, known)]
             tested = bool(defs_) and all(
-                d.kind == 'assign' and d.value is not None and d.stmt is not None and (is_none(d.value) or any(
-                    pol and t in (f"{norm_text(d.value)} in {wtext}.{holder}" for holder in ('variables', 'coords', 'data_vars')) or (pol and t == f"{norm_text(d.value)} in {wtext}")
-                    for t, pol in _facts20c(ctx, ep, d.stmt, expand=False)))
+                d.kind == 'assign' and d.value is not None and d.stmt is not None and all(is_none(v_) or any(
+                    pol and t in (f"{norm_text(v_)} in {wtext}.{holder}" for holder in ('variables', 'coords', 'data_vars')) or (pol and t == f"{norm_text(v_)} in {wtext}")
+                    for t, pol in known_) for v_, known_ in arms(d.value, set(_facts20c(ctx, ep, d.stmt, expand=False))))
                 for d in defs_)
             dominated = dominated or tested
             ok_tv = from_written or dominated
